@@ -339,27 +339,16 @@ class ClientWebSocketResponse(Generic[_DecodeText]):
 
         self._set_closed()
         try:
-            await self._writer.close(code, message)
-        except asyncio.CancelledError:
-            self._close_code = WSCloseCode.ABNORMAL_CLOSURE
-            self._abort()
-            raise
-        except Exception as exc:
-            self._close_code = WSCloseCode.ABNORMAL_CLOSURE
-            self._exception = exc
-            self._abort()
-            return True
-
-        # The peer's CLOSE was already received (its status code may be
-        # absent, i.e. 0) or the connection is already lost.
-        if self._close_code is not None:
-            self._response.close()
-            return True
-
-        try:
-            # A single deadline for the whole close handshake: frames other
-            # than CLOSE must not extend it.
+            # A single deadline for the whole close handshake: sending our
+            # CLOSE (the peer may have stopped reading) is bounded as well and
+            # frames other than CLOSE must not extend it.
             async with async_timeout.timeout(self._timeout.ws_close):
+                await self._writer.close(code, message)
+                # The peer's CLOSE was already received (its status code may
+                # be absent, i.e. 0) or the connection is already lost.
+                if self._close_code is not None:
+                    self._response.close()
+                    return True
                 while True:
                     msg = await self._reader.read()
                     if msg.type is WSMsgType.CLOSE:
